@@ -686,13 +686,16 @@ class ListItem(BlockToken):
                 # the line doesn't have the indentation to show that it belongs to
                 # the list item, but it should be included anyway by lazy continuation...
                 # ...unless it's the start of another token
-                if any(token_type.check_interrupts_paragraph(lines) for token_type in breaking_tokens):
+                # (a line with a list marker starts an item, whatever the item begins with - "- | a |" is
+                # no table row; only a thematic break like "- - -" wins over the marker)
+                marker_info = cls.parse_marker(next_line)
+                if ((marker_info is None or ThematicBreak.start(next_line))
+                        and any(token_type.check_interrupts_paragraph(lines) for token_type in breaking_tokens)):
                     if newline_count:
                         lines.backstep()
                         del line_buffer[-newline_count:], line_positions[-newline_count:]
                     break
                 # ...or it's a new list item
-                marker_info = cls.parse_marker(next_line)
                 if marker_info is not None:
                     next_marker = marker_info
                     if newline_count and not List.same_marker_type(leader, marker_info[2]):
